@@ -6,6 +6,8 @@ PROP = dict(
                  env=dict(quick=dict(VERIF_CASES=300), thorough=dict(VERIF_CASES=6000))),
             dict(name="dutch-v2", go_test="TestC10", runner="C10",
                  env=dict(quick=dict(VERIF_CASES=250), thorough=dict(VERIF_CASES=5000))),
+            dict(name="dutch-v2-lend", go_test="TestC10Lend", runner="C10",
+                 env=dict(quick=dict(VERIF_CASES=60), thorough=dict(VERIF_CASES=1500))),
             dict(name="dutch-v1", go_test="TestC10V1", runner="C10-v1",
                  env=dict(quick=dict(VERIF_CASES=150), thorough=dict(VERIF_CASES=3000))),
             dict(name="dutch-v1-lend", go_test="TestC10V1Lend", runner="C10-v1",
@@ -14,12 +16,19 @@ PROP = dict(
         rule="dutch-price: case = (premium, end factor, duration, oracle price) from a lattice plus random durations/factors; every "
              "case posts the price through the real UpdateDutchAuction at t = 0, 1, D-1, D and 4-11 random instants and calls "
              "GetPriceFromLinearDecreaseFunction directly on 3 random (tau, t); non-trivial = the price moved. "
-             "dutch-v2: cases 0-3 = corpus (regression inputs of the repaired C10-F3 / C10-F2: external auction with keeper incentive closed by a full bid; collateral-exhausted close against a reserve of 1000; the same with a big reserve; two external auctions closed by exact / over-sized bids), then generated: case = auction/whitelisting parameters, two positions (vault via MsgLiquidateInternalKeeper, vault via "
+             "dutch-v2: cases 0-7 = corpus (regression inputs of the repaired C10-F3 / C10-F2: external auction with keeper incentive closed by a full bid; collateral-exhausted close against a reserve of 1000; the same with a big reserve; two external auctions closed by exact / over-sized bids; "
+             "of the repaired C10-F5: a limit bid above the debt of an under-collateralised auction, cut down to the collateral value; of C10-F6: two partial limit bids in one closure, then an exact one; a closing limit bid followed by another one, then a second auction; "
+             "and a vault liquidated through MsgLiquidateInternalKeeper with a 10 % keeper incentive: market bid, partial fill, closing bid - penalty split keeper / collector / net-fee book), then generated: case = auction/whitelisting parameters (keeper incentive 0 / 0.5 % / 10 %), two positions (vault via MsgLiquidateInternalKeeper, vault via "
              "LiquidateIndividualVault, external via MsgLiquidateExternalKeeper) seized through the real liquidation path, app reserve "
              "none/tiny/big, then 4-15 ops: MsgPlaceMarketBid by 3 bidders (1 unit, small, 1-99 % of the remaining debt, exact, "
-             "exact-1, exact+1, 3x, leaving dust, wrong denom, zero, one poor bidder), auctionsV2.BeginBlocker ticks (dt 0, 1, 5, D/4, "
-             "D/2, exactly to EndTime, EndTime+1, >2D) with oracle prices moving / going inactive, start of the second auction; "
-             "non-trivial = at least one bid succeeded; distinct by digest of parameters and op sequence. "
+             "exact-1, exact+1, 3x, leaving dust, wrong denom, zero, one poor bidder), MsgDepositLimitBid by the same bidders (discount a little above / at the current discount of a live auction, 0-16, 31 = above the maximum; "
+             "amount 1 unit, small, a share of / exactly / one more than / one less than / 3x the remaining debt, zero, wrong denom, unaffordable), auctionsV2.BeginBlocker ticks = price update AND the automatic fill of limit bids (dt 0, 1, 5, D/4, "
+             "D/2, exactly to EndTime, EndTime+1, >2D, or - 4 of 13 - the next instant at which a live auction's discount meets a limit bid, searched with the real price update on throw-away contexts) with oracle prices moving / going inactive, start of the second auction; "
+             "every observation carries the limit bids, the pool total, the user bids created by the step (the fills' automatic bids), the prices the block posted and the collector's net-fee book; "
+             "non-trivial = at least one bid (market or automatic) succeeded; distinct by digest of parameters and op sequence. "
+             "dutch-v2-lend: cases 0-3 = corpus (e-mode pair closed by one exact bid = regression of seeded/C10-4; e-mode pair with interest, partial bid, tick, over-sized bid; ordinary pair; e-mode pair closed through a fill), then generated: the lend fixture of the C09 borrow workload "
+             "(2 pools, 13 pairs: same-pool, e-mode with ELiquidationPenalty != LiquidationPenalty, cross-pool bridged through both transit assets), a fresh user lends 0.1-50 tokens and borrows 60-100 % of the admissible loan, 0 s-30 d pass, the collateral price falls to 99.9-40 % of the price that puts the borrow on its (e-mode) threshold, "
+             "the borrow is seized by MsgLiquidateInternalKeeper (liq type 1) or LiquidateIndividualBorrow, then the same bid / limit-bid / tick mix ending with an over-sized bid; the lending pool is observed as pool + reserve module accounts together. "
              "dutch-v1: case = x/auction parameters (buffer, cusp, duration), extended pair (penalty, closing fee, dust, fixed or oracle debt price), "
              "asset Decimals, collector net fees none/tiny/big, two vaults created through MsgCreate and seized by the real "
              "x/liquidation LiquidateVaults after a price drop, then 4-15 ops: MsgPlaceDutchBid by 3 bidders (collateral amounts: 1 unit, small, "
@@ -31,15 +40,17 @@ PROP = dict(
              "x/liquidation LiquidateBorrows after a collateral price drop (re-liquidations inside a closing bid are picked up too), then the same "
              "bid / tick mix through MsgPlaceDutchLendBid; non-trivial = at least one bid succeeded",
         modelled=["liquidation itself (LockedVault fields and the collateral transfer are taken from the implementation at each start op)",
-                  "bank keeper as a ledger over the named accounts", "ESM branch of AuctionIterator and limit-order auto bids are not driven",
-                  "lend-initiated close only as the transfer of TargetDebt to the pool module (not driven by the harness)",
+                  "bank keeper as a ledger over the named accounts", "ESM branch of AuctionIterator is not driven",
+                  "the limit-bid book as the deposits of the auction's market (premium, bidder) -> amount and the pool total; MsgCancelLimitBid / MsgWithdrawLimitBid and their fees are C11's subject and not driven here; the order in which the store lists the bidders of one premium (by address string) is an environment input",
+                  "lend-initiated close as the transfer of TargetDebt to the pool module and the bank panic of known finding C10-F7; what MsgCloseDutchAuctionForBorrow moves between the pool and the reserve module account (penalty, reserve interest), the cToken mint and the return of a bridged amount to its pool are lend-internal (C08) and observed only as the sum pool + reserve; the borrow / lend book-keeping is not modelled",
+                  "the collector's net-fee book only as the record of (app, debt asset) that the vault-initiated close adds the collector's share of the penalty to",
                   "generation 1 (x/auction): vault and lend bid path, close and price update modelled (Model/DutchV1.v); not modelled: the ESM branch of RestartDutchAuctions, UpdateProtocolData / locked-vault history book-keeping, UnLiquidateLockedBorrows after a lend close",
                   "c10_bid_price / c10_conv_bounds assume asset Decimals <= 10^18 and prices of at least 10^-18 uusd per smallest unit (Decimals <= price as a Dec integer)"],
         assumptions=["block times are whole seconds and non-decreasing", "oracle prices below 2^63", "asset Decimals and prices positive"],
     )
 
 MANIFEST = dict(
-    level_text="Both auction generations. Generation-2 Dutch auction (x/auctionsV2) modelled statement by statement with exact sdk.Dec arithmetic. Proved for all inputs: the posted price is non-increasing between restarts, at most the start price and non-negative; totals over any bid/tick history (paid <= target debt, received <= collateral); per-bid amounts. Proved for every closing bid without exception class: close completeness per initiator type incl. the external keeper incentive, and that the app reserve is debited exactly the shortfall, only when it covers it, and stays backed. The end-price clause is proved refuted (truncated time-to-zero, known finding C10-F1) and proved on the complement of the executable class. The two further defects found on the original tree (reserve top-up silently skipped: C10-F2; external close panics on the empty keeper address: C10-F3) are repaired by fixes/C10-F2 and fixes/C10-F3; the model follows the repaired code, their witnesses stay in the harness corpus and as Examples, and a recurrence is reported as a plain violation. Generation 1 (x/auction dutch.go, dutch_lend.go): totals by induction over any bid/tick history without price assumptions, per-bid price predicate, close completeness for vault and lend auctions; custody over any history; the end-price finding C10-F1 is the same arithmetic and reproduces there; for lend auctions the custody clause is proved refuted (unpaid bonus stranded in the module account, known finding C10-F4) and proved on the complement of the executable class. The models are tied to /repo by differential runs of the real liquidation paths, MsgPlaceMarketBid / MsgPlaceDutchBid and the two BeginBlockers on every check.",
+    level_text="Both auction generations. Generation-2 Dutch auction (x/auctionsV2) modelled statement by statement with exact sdk.Dec arithmetic. Proved for all inputs: the posted price is non-increasing between restarts, at most the start price and non-negative; totals over any bid/tick history (paid <= target debt, received <= collateral); per-bid amounts. Proved for every closing bid without exception class: close completeness per initiator type incl. the external keeper incentive, and that the app reserve is debited exactly the shortfall, only when it covers it, and stays backed. The end-price clause is proved refuted (truncated time-to-zero, known finding C10-F1) and proved on the complement of the executable class. The two further defects found on the original tree (reserve top-up silently skipped: C10-F2; external close panics on the empty keeper address: C10-F3) are repaired by fixes/C10-F2 and fixes/C10-F3; the model follows the repaired code, their witnesses stay in the harness corpus and as Examples, and a recurrence is reported as a plain violation. The automatic fill of limit bids (LimitOrderBid) is part of the auction's life in the model: automatic bids, the limit-bid book and pool, one closure per auction; the two defects found there (a limit bid charged min(deposit, debt) although the bid was cut down to the collateral value: C10-F5; every limit bid of a closure placed on the auction copy read before the loop: C10-F6) are repaired by fixes/C10-F6 + fixes/C10-F5 and the model follows the repaired code. Proved over any history of market bids, ticks, limit-bid deposits and fills: totals; custody (beyond the live auction, the booked fees and the limit-bid pool the auction account's balances never change); per closure: its shape (each bid on the auction as the previous one left it, nothing after a closing bid), charged = bid for every limit bid, the per-bid price predicate; for every closing bid, market or automatic: the penalty split (collector share + keeper share = penalty, net-fee book grows by the collector share). Lend-initiated auctions are driven on the real lend keepers; their close is proved refuted for cross-pool borrows whose lend position was used up (the closing bid panics, known finding C10-F7) and proved to go through on the complement of the executable class. Generation 1 (x/auction dutch.go, dutch_lend.go): totals by induction over any bid/tick history without price assumptions, per-bid price predicate, close completeness for vault and lend auctions; custody over any history; the end-price finding C10-F1 is the same arithmetic and reproduces there; for lend auctions the custody clause is proved refuted (unpaid bonus stranded in the module account, known finding C10-F4) and proved on the complement of the executable class. The models are tied to /repo by differential runs of the real liquidation paths, MsgPlaceMarketBid / MsgPlaceDutchBid and the two BeginBlockers on every check.",
     design_ref="DESIGN.md section 4 C10",
     level_note="Trusted: Coq kernel, extraction (ExtrOcamlBasic), OCaml runner, Go harness. Generation 1 (x/auction) vault and lend Dutch auctions are modelled too (bid, close, price update) and the vault ones are driven through the real x/liquidation and x/auction keepers. No axioms (Closed under the global context).",
     technique="Coq proof (monotonicity of Dec arithmetic, invariants by induction over bid/tick histories) + model/implementation correspondence run",
